@@ -82,7 +82,10 @@ def run(tier, seed, only=None):
             sw_key = K.surface(nx, ny, symm, fem_model_type="wingbox")  # wingbox: the spar location comes from the airfoil data,
             sw_nokey = dict(sw_key)                                       # whether or not the dictionary also carries a fem_origin key
             sw_nokey.pop("fem_origin", None)
-            for fo, sfo in [(v_, dict(s, fem_origin=v_)) for v_ in (0.0, 0.35, 0.625, 1.0)] + [("wingbox with a fem_origin key", sw_key), ("wingbox", sw_nokey)]:
+            # ... and a tube dictionary may carry (unused) wingbox airfoil arrays, e.g. when it was copied from a wingbox study
+            tube_data = dict(s, fem_origin=0.25, **{k_: sw_key[k_] for k_ in sw_key if k_.startswith("data_")})
+            for fo, sfo in [(v_, dict(s, fem_origin=v_)) for v_ in (0.0, 0.35, 0.625, 1.0)] + [("wingbox with a fem_origin key", sw_key), ("wingbox", sw_nokey),
+                                                                                           ("tube 0.25 with airfoil data keys", tube_data)]:
                 lt = SymComp("transfer.load_transfer", "LoadTransfer", surface=sfo)
                 cn_ = SymComp("structures.compute_nodes", "ComputeNodes", surface=sfo)
                 rep.encode(type(cn_.comp))
